@@ -53,7 +53,7 @@ func ruleC18_1(c *Ctx, r *Rep) {
 			}
 		}
 	}
-	r.Floor("C18.1", n, 4)
+	r.Floor("C18.1", n, 3)
 }
 
 // reachUnderSign: blocks reachable from `from` when every comparison of v with the constant 0 is decided for sign sg (-1, 0, +1).
@@ -195,7 +195,7 @@ func ruleC18_3(c *Ctx, r *Rep) {
 				"the fault table is accessed ("+a.what+", "+mode+") in "+c.Key(f)+" without the required lock")
 		}
 	}
-	r.Floor("C18.3", n, 10)
+	r.Floor("C18.3", n, 6)
 }
 
 func ruleC18_4(c *Ctx, r *Rep) {
@@ -698,7 +698,7 @@ func ruleC19_4(c *Ctx, r *Rep) {
 			}
 		}
 	}
-	r.Floor("C19.4", n, 15)
+	r.Floor("C19.4", n, 9)
 }
 
 func ruleC19_5(c *Ctx, r *Rep) {
@@ -755,5 +755,5 @@ func ruleC19_5(c *Ctx, r *Rep) {
 		ok := (fld == "Ack" && (qn == "fastAckQueue" || qn == "slowAckQueue")) || (fld == "Nack" && qn == "nackQueue")
 		r.Check("C19.5", fmt.Sprintf("C19.5:drain:%s←%s", fld, qn), ci.Pos(), ok, "", "ids drained from "+qn+" are reported as "+fld)
 	}
-	r.Floor("C19.5", n, 6)
+	r.Floor("C19.5", n, 4)
 }
